@@ -189,6 +189,10 @@ func registerC01() {
 	// (the feasibility check and the real packing iterate the same map in independent orders)
 	radD := []int{3, 3, 4, 2}
 	nD := prod(radD...)
+	// family E: a healthy unassigned target that still fits, but only into shards with (far) less than 1 % of free space
+	// (weights of the random destination choice get very small)
+	radE := []int{4, 3, 2, 2}
+	nE := prod(radE...)
 	direct := func(idx int) *Case {
 		switch {
 		case idx < nA:
@@ -250,6 +254,29 @@ func registerC01() {
 			}
 			c.Cycles = oneCycle(shards...)
 			return c
+		case idx >= nA+nB+nC+nD:
+			d := digits(idx-nA-nB-nC-nD, radE...)
+			loads := [][]int64{{994, 996}, {9990, 9995}, {997}, {996, 900}}[d[0]]
+			size := []int64{1, 2, 3}[d[1]]
+			limit := int64(1000)
+			if d[0] == 1 {
+				limit = 10000
+			}
+			c := &Case{Name: "C01-E", Opt: Opt{MaxHead: 0, MaxProc: limit, Min: 0, Max: 99, IdleMin: 30 * d[3]}, Explore: map[uint64]*TStat{}, Reps: 6}
+			if d[2] == 1 {
+				c.Opt.MaxHead = limit
+			}
+			var shards []ShardScript
+			for i, l := range loads {
+				h := uint64(1 + i)
+				shards = append(shards, okShard().with(h, up(l, l, 5)))
+				c.Active = append(c.Active, ActiveT{h, "job"})
+				c.Explore[h] = &TStat{Health: "up", Series: l, Total: l}
+			}
+			c.Active = append(c.Active, ActiveT{50, "job"})
+			c.Explore[50] = &TStat{Health: "up", Series: size, Total: size}
+			c.Cycles = oneCycle(shards...)
+			return c
 		case idx >= nA+nB+nC:
 			d := digits(idx-nA-nB-nC, radD...)
 			loads := []int64{92, 95, 90}
@@ -304,9 +331,9 @@ func registerC01() {
 	register(&propDef{
 		id: "C01",
 		rule: "case = coordinator options + discovered set + explorer table + per-shard scripted reports/health for one cycle, executed R times (map order, random choice) through the real Coordinator.Run; " +
-			"directed families (two and three copies of one target in every state/scrape-count/load-order combination, next to out-of-sync holders; vanished targets; a tail shard whose targets fit the front shards for some first-fit orders only, 40 repetitions each) followed by seed-determined random cases; " +
+			"directed families (two and three copies of one target in every state/scrape-count/load-order combination, next to out-of-sync holders; vanished targets; a tail shard whose targets fit the front shards for some first-fit orders only, 40 repetitions each; an unassigned target that fits only into shards with less than 1 % of free space) followed by seed-determined random cases; " +
 			"non-trivial = at least 2 shards and a discovered target reported by an in-sync shard; distinct = hash of the case with sizes bucketed",
-		judge: judgeC01, nDirect: nA + nB + nC + nD, direct: direct,
+		judge: judgeC01, nDirect: nA + nB + nC + nD + nE, direct: direct,
 		nRandom: map[string]int{"quick": 20000, "thorough": 300000},
 		nontriv: func(v *view) bool {
 			if v.n < 2 {
@@ -585,8 +612,41 @@ func registerC07() {
 	// shard that relief can fully relieve, and an expired idle tail without room (stale head series)
 	radB := []int{2, 3, 2, 2, 2}
 	nB := prod(radB...)
+	// family C: expired idle tail shard(s) behind a shard whose targets do not all fit the tightly packed front:
+	// emptying that shard must not use the very shards that are about to be removed
+	radC := []int{3, 3, 2, 2, 2}
+	nC := prod(radC...)
 	directA := func(idx int) *Case { return nil }
 	direct := func(idx int) *Case {
+		if idx >= nA+nB {
+			d := digits(idx-nA-nB, radC...)
+			front := []int64{90, 95, 80}[d[0]]
+			// the shard itself must be too full for a second copy of the target that fits nowhere in front
+			mid := [][]int64{{40, 40}, {60, 30}, {45, 45, 5}}[d[1]]
+			c := &Case{Name: "C07-C", Opt: Opt{MaxHead: 0, MaxProc: 100, Min: 0, Max: 99, IdleMin: 30}, Explore: map[uint64]*TStat{}, Reps: 8}
+			if d[2] == 1 {
+				c.Opt.MaxHead, c.Opt.MaxProc = 100, 1000
+			}
+			add := func(s ShardScript, h uint64, sz int64) ShardScript {
+				c.Active = append(c.Active, ActiveT{h, "job"})
+				c.Explore[h] = &TStat{Health: "up", Series: sz, Total: sz}
+				return s.with(h, up(sz, sz, 9))
+			}
+			shards := []ShardScript{add(okShard(), 1, front)}
+			if d[4] == 1 {
+				shards = append(shards, add(okShard(), 2, front))
+			}
+			m := okShard()
+			for i, sz := range mid {
+				m = add(m, uint64(10+i), sz)
+			}
+			shards = append(shards, m, okShard().idle("expired"))
+			if d[3] == 1 {
+				shards = append(shards, okShard().idle("expired"))
+			}
+			c.Cycles = oneCycle(shards...)
+			return c
+		}
 		if idx >= nA {
 			d := digits(idx-nA, radB...)
 			big := []int64{60, 95}[d[0]]
@@ -666,10 +726,10 @@ func registerC07() {
 	}
 	register(&propDef{
 		id: "C07",
-		rule: "same engine; directed list enumerates ALL tuples of shard kinds {loaded, idle-fresh, idle-expired, unready, out-of-sync, unreachable} over 1-4 positions x {no new target, small, fits only an empty shard, fits nowhere} x 5 (min,max) settings x max-idle-time {0, 30 min}; then random 1-5 shard cases; every ChangeScale argument of the cycle is judged, also against a sufficient condition for 'relief needs space' (a shard over the head threshold none of whose targets fits any other shard by the loads reported in the cycle: no request below the current count), with a directed family of two overloaded shards - one relievable, one not - next to an expired idle tail without room; " +
+		rule: "same engine; directed list enumerates ALL tuples of shard kinds {loaded, idle-fresh, idle-expired, unready, out-of-sync, unreachable} over 1-4 positions x {no new target, small, fits only an empty shard, fits nowhere} x 5 (min,max) settings x max-idle-time {0, 30 min}; then random 1-5 shard cases; every ChangeScale argument of the cycle is judged, also against a sufficient condition for 'relief needs space' (a shard over the head threshold none of whose targets fits any other shard by the loads reported in the cycle: no request below the current count), with a directed family of two overloaded shards - one relievable, one not - next to an expired idle tail without room, and a family of expired idle tails behind a shard whose targets do not all fit the tightly packed front; " +
 			"plus closed-loop cases (E2: real sidecars, simulated StatefulSet) with max-idle-time 0 / 1000 h / 150-250 ms of real time: every shard the coordinator removes is judged against the harness clock - it was seen holding targets, or was created, at a known instant, so it can have been idle for at most the span since then (one-sided: load only lengthens the span); a third of them a directed sequence in which an idle tail shard receives a target in an update whose Prometheus reload fails / is dropped / loses its answer, more than max-idle-time passes and the target disappears again; " +
 			"non-trivial = at least one scale request observed in a case with 2+ shards or an idle shard; distinct = hash of the case with sizes bucketed",
-		judge: judgeC07, nDirect: nA + nB, direct: direct,
+		judge: judgeC07, nDirect: nA + nB + nC, direct: direct,
 		nRandom: map[string]int{"quick": 10000, "thorough": 200000},
 		reps:    map[string]int{"quick": 2, "thorough": 6},
 		nontriv: func(v *view) bool { return len(v.scales) > 0 && v.n >= 2 },
